@@ -116,7 +116,7 @@ def deliver(cb, st, flav, role, exact, layer='S'):
     else:
         req.append('(%s == 255 || %s == %s)' % (st, active, st))
     if CB[cb][2]:
-        req.append('event == g_event')                                   # C05: the caller's own event object
+        req.append('{ptr:event} == g_event')                                   # C05: the caller's own event object
     if guard:
         # C06 / C07: guards see the request under evaluation and the transition accepted so far
         req.append(t_eq('(*control->_pendingTransition)', 'g_pending'))
@@ -200,7 +200,7 @@ def s_contract(cb, st, for_layer='S_'):
     if flav == 'Guard':
         rt.append(fresh('control->_pendingTransition', '*control->_pendingTransition'))
     if ev:
-        rt.append(fresh('event'))
+        rt.append('{fresh:event}')
     return dict(requires=req, requires_target=rt, assigns=asg, ensures=ens)
 
 S_RECS = dict(RECS); S_RECS.update({'S_': r'^ffsm2::detail::S_<0,.*,A>$', 'A_': r'^ffsm2::detail::A_<ffsm2::detail::B_<', 'B_': r'^ffsm2::detail::B_<'})
@@ -229,3 +229,143 @@ def s_unit(cb, head='A', tag=None, props=None):
     return u
 
 UNITS = [s_unit(cb) for cb in ('entryGuard', 'enter', 'reenter', 'preUpdate', 'update', 'postUpdate', 'preReact', 'react', 'postReact', 'query', 'exitGuard', 'exit')]
+
+# =============================================================================================
+# C15: a state with three injections (Head = C : StateT<Inj1, Inj2, Inj3>): LIFO nesting
+PRE_SIDE = ('entryGuard', 'enter', 'reenter', 'preUpdate', 'update', 'preReact', 'react')
+POST_SIDE = ('exit', 'postUpdate', 'postReact')
+def inj_stub(cb, d, st):
+    c = stub_contract(cb, st)
+    kid = K[CB[cb][0]]
+    who = 'WHO(%s)' % st
+    rep = lambda x: x.replace('g_t[%d][%s]' % (kid, who), 'g_ti[%d][%d]' % (kid, d)).replace('g_st[%d][%s]' % (kid, who), 'g_sti[%d][%d]' % (kid, d))
+    out = dict(requires=[rep(x) for x in c['requires'] if 'g_entered' not in x and 'g_root_entered' not in x],
+               assigns=[rep(x) for x in c['assigns'] if x not in ('g_entered', 'g_root_entered')],
+               ensures=[rep(x) for x in c['ensures'] if 'g_entered' not in x])
+    if cb in ('entryGuard', 'exitGuard'):
+        out['requires'].append('g_ti[%d][%d] == 0' % (kid, d))
+    return out
+
+def s_unit_inj(cb):
+    mid, flav, ev = CB[cb]
+    kid = K[mid]
+    fn = DEEP[cb]
+    tname = 'S___%s' % fn + ('__Ev' if ev else '')
+    sc = s_contract(cb, ST)
+    who = 'WHO(%s)' % ST
+    tis = ['g_ti[%d][%d]' % (kid, d) for d in range(3)]
+    sc['requires'] = sc['requires'] + ['%s == 0' % t for t in tis]
+    sc['assigns'] = sc['assigns'] + tis + ['g_sti[%d][%d]' % (kid, d) for d in range(3)]
+    own = 'g_t[%d][%s]' % (kid, who)
+    if cb in PRE_SIDE:
+        order = '__CPROVER_old(g_clock) < %s && %s < %s && %s < %s && %s < %s' % (tis[0], tis[0], tis[1], tis[1], tis[2], tis[2], own)
+    elif cb in POST_SIDE:
+        order = '__CPROVER_old(g_clock) < %s && %s < %s && %s < %s && %s < %s' % (own, own, tis[2], tis[2], tis[1], tis[1], tis[0])
+    else:
+        order = ' && '.join('%s > __CPROVER_old(g_clock)' % t for t in tis)     # exitGuard / query: each injection exactly once, order not constrained by C15
+    sc['ensures'] = sc['ensures'] + [('C15', order), ('C15', ' && '.join('g_sti[%d][%d] == %s' % (kid, d, ST) for d in range(3)))]
+    contracts = {tname: sc, 'C__%s' % cb: stub_contract(cb, ST)}
+    for d in range(3):
+        contracts['Inj%d__%s' % (d + 1, cb)] = inj_stub(cb, d, ST)
+    contracts.update(logger_contracts())
+    if cb == 'exit':
+        contracts.update(CLEAR_STATUS)
+    recs = dict(S_RECS)
+    recs['S_'] = r'^ffsm2::detail::S_<2,.*,C>$'
+    recs['A_'] = r'^ffsm2::detail::A_<Inj1,Inj2,Inj3>$'
+    return dict(id='structure.S_inj.%s' % fn, witness=W, recs=recs, opaque=OPAQUE, props=['C15', 'C18'],
+                target=dict(cls=recs['S_'], name=fn, nparams=2 if ev else 1),
+                consts=S_CONSTS, need_consts=['ArgsT.STATE_COUNT'], ghost=GHOST + ['uint32_t g_ti[16][3]; uint8_t g_sti[16][3];'],
+                calls=S_CALLS, contracts=contracts,
+                bounded='number of injections k = 3 (witness); k = 0 is covered by the structure.S_ units')
+
+UNITS += [s_unit_inj(cb) for cb in ('entryGuard', 'enter', 'reenter', 'preUpdate', 'update', 'postUpdate', 'preReact', 'react', 'postReact', 'query', 'exitGuard', 'exit')]
+
+# =============================================================================================
+# CS_ layer (C14): binary dispatch on the prong.  The inner node CS_<NN, Args, NP, TL_<T1..Tn>> (n >= 2) is verified with
+# symbolic NN == NP == lo and n, its two halves replaced by the *same* contract instantiated at (lo, n/2) and
+# (lo + n/2, n - n/2); the leaf (n == 1) is verified against the S_ contract.  Induction over n then gives the
+# contract for every state count.  That the halves really are those instantiations is a fact about template
+# instantiation (LHalfCS / RHalfCS); it is checked on every CS_ node of the witnesses (skeleton check below).
+WIDE = {cb: 'wide' + DEEP[cb][4:] for cb in DEEP if DEEP[cb].startswith('deep')}
+LO = 'CS___NProng'
+NSUB = 'CS___sizeof_TStates'
+
+def cs_contract(cb, lo, n):
+    c = s_contract(cb, '{p-1}')
+    kid = K[CB[cb][0]]
+    rng = '(int)(%s) <= (int){p-1} && (int){p-1} < (int)(%s) + (int)(%s) && (int)(%s) + (int)(%s) <= (int)%s' % (lo, lo, n, lo, n, N)
+    out = dict(c)
+    out['requires'] = [rng] + [x.replace("g_clock < " + BOUND['S'], "g_clock < " + BOUND['CS']) for x in c['requires']]
+    out['requires_target'] = [x for x in c['requires_target']]
+    return out
+
+def skeleton_check(ast):
+    """every inner CS_ node of the witness splits as the contracts assume; every leaf holds the S_ (or C_) with its own id"""
+    import re
+    from cxxast import split_targs
+    notes, n_inner, n_leaf = [], 0, 0
+    def parse(q):
+        m = re.match(r'^ffsm2::detail::CS_<(\d+),(.*),(\d+),ffsm2::detail::TL_<(.*)>>$', q)
+        return (int(m.group(1)), int(m.group(3)), split_targs(m.group(4))) if m else None
+    for q, r in ast.rec_by_qname.items():
+        p = parse(q)
+        if not p:
+            continue
+        nn, np_, ts = p
+        if len(ts) >= 2:
+            n_inner += 1
+            l, rr = parse(r.bases[0]), parse(r.bases[1])
+            h = len(ts) // 2
+            ok = l and rr and l[0] == nn and l[1] == np_ and l[2] == ts[:h] and rr[0] == nn + h and rr[1] == np_ + h and rr[2] == ts[h:]
+            if not ok:
+                raise Exception('CS_ skeleton broken at %s: bases %s' % (q, r.bases))
+        else:
+            n_leaf += 1
+            b = r.bases[0]
+            if not re.match(r'^ffsm2::detail::S_<%d,' % nn, b) or not b.endswith(',%s>' % ts[0]):
+                raise Exception('CS_ leaf %s does not hold S_<%d, ..., %s>: %s' % (q, nn, ts[0], b))
+            if nn != np_:
+                raise Exception('CS_ leaf %s: state id differs from prong' % q)
+    if n_inner == 0 or n_leaf == 0:
+        raise Exception('no CS_ nodes in the witness')
+    # the composite hands the whole list to CS_<0, Args, 0, ...>
+    for q, r in ast.rec_by_qname.items():
+        if q.startswith('ffsm2::detail::C_<'):
+            if not re.match(r'^ffsm2::detail::S_<255,', r.bases[0]) or not re.match(r'^ffsm2::detail::CS_<0,.*,0,ffsm2::detail::TL_<', r.bases[1]):
+                raise Exception('C_ bases are not S_<INVALID,..> and CS_<0,..,0,..>: %s' % r.bases)
+    return ['skeleton: %d inner and %d leaf CS_ nodes of the witness split as LHalf=(NN,NP,n/2) RHalf=(NN+n/2,NP+n/2,n-n/2); leaves hold S_<NN>' % (n_inner, n_leaf)]
+
+CS_RECS = dict(RECS); CS_RECS.update({'CS_': r'^ffsm2::detail::CS_<0,.*,0,ffsm2::detail::TL_<A,B,C>>$', 'CS_L': r'^ffsm2::detail::CS_<0,.*,0,ffsm2::detail::TL_<A>>$',
+                                      'CS_R': r'^ffsm2::detail::CS_<1,.*,1,ffsm2::detail::TL_<B,C>>$'})
+CS_CONSTS = dict(CONSTS); CS_CONSTS.update({'CS___NProng': ('range', 0, 254), 'CS___sizeof_TStates': ('range', 2, 255), 'CS___NStateId': ('expr', 'CS___NProng')})
+
+def cs_inner_unit(cb):
+    mid, flav, ev = CB[cb]
+    fn = WIDE[cb]
+    sfx = '__Ev' if ev else ''
+    half = '(%s / 2)' % NSUB
+    contracts = {'CS___%s%s' % (fn, sfx): cs_contract(cb, LO, NSUB),
+                 'CS_L__%s%s' % (fn, sfx): cs_contract(cb, LO, half),
+                 'CS_R__%s%s' % (fn, sfx): cs_contract(cb, '(%s + %s)' % (LO, half), '(%s - %s)' % (NSUB, half))}
+    return dict(id='structure.CS_.%s' % fn, witness=W, recs=CS_RECS, opaque=OPAQUE + [r'^ffsm2::detail::S_<', r'^ffsm2::detail::CS_<\d+,.*TL_<[A-Z]>>$'],
+                props=['C14', 'C05', 'C01', 'C18'], target=dict(cls=CS_RECS['CS_'], name=fn, nparams=3 if ev else 2),
+                consts=CS_CONSTS, need_consts=['ArgsT.STATE_COUNT', 'CS_.PRONG_INDEX', 'CS_.R_PRONG'], ghost=GHOST, ast_check=skeleton_check,
+                calls={'re:^CS_[LR]__': 'contract'}, contracts=contracts)
+
+LEAF_RECS = dict(RECS); LEAF_RECS.update({'CS_': r'^ffsm2::detail::CS_<0,.*,0,ffsm2::detail::TL_<A>>$', 'S_': r'^ffsm2::detail::S_<0,.*,A>$'})
+LEAF_CONSTS = dict(CONSTS); LEAF_CONSTS.update({'CS___NProng': ('range', 0, 254)})
+def cs_leaf_unit(cb):
+    mid, flav, ev = CB[cb]
+    fn = WIDE[cb]
+    sfx = '__Ev' if ev else ''
+    prong_param = 'prong'
+    c = cs_contract(cb, LO, '1')
+    contracts = {'CS___%s%s' % (fn, sfx): c, 'S___%s%s' % (DEEP[cb], sfx): s_contract(cb, LO)}
+    return dict(id='structure.CS_leaf.%s' % fn, witness=W, recs=LEAF_RECS, opaque=OPAQUE + [r'^ffsm2::detail::S_<'],
+                props=['C14', 'C05', 'C01', 'C18'], target=dict(cls=LEAF_RECS['CS_'], name=fn, nparams=3 if ev else 2),
+                consts=LEAF_CONSTS, need_consts=['ArgsT.STATE_COUNT', 'CS_.PRONG_INDEX'], ghost=GHOST, ast_check=skeleton_check,
+                calls={'re:^S___': 'contract'}, contracts=contracts)
+
+_CS_CBS = ('entryGuard', 'enter', 'reenter', 'preUpdate', 'update', 'postUpdate', 'preReact', 'react', 'postReact', 'query', 'exitGuard', 'exit')
+UNITS += [cs_inner_unit(cb) for cb in _CS_CBS] + [cs_leaf_unit(cb) for cb in _CS_CBS]
